@@ -241,6 +241,15 @@ func c05Run(w *W) {
 					continue
 				}
 				m.Header = append(m.Header, c.rawHdr...)
+			} else if w.Choose(simrt.SProg, 4) == 0 {
+				// the reply message still carries a header from wherever the
+				// application got it (a message it received on another socket):
+				// a cooked socket sends exactly the request's routing header
+				m.Header = append(m.Header, u32(0x80000000|uint32(w.Choose(simrt.SProg, 1<<20)))...)
+				if w.Choose(simrt.SProg, 2) == 0 {
+					m.Header = append(m.Header, u32(uint32(w.Choose(simrt.SProg, 1<<20)))...)
+				}
+				w.Probe("reply-message-carries-a-foreign-header")
 			}
 			if q != nil {
 				q.pipeOpenAtSend = q.pipe.Open()
